@@ -307,3 +307,66 @@ def check_c10(idx: Index, tier: str, res: Result) -> None:
     res.check("AGG", "size = number of sub-elements", ok, sz.loc(), sz.qual, "vector_size()", "ArraySizeOperator does not report vector_size()",
               key="AGG/ArraySizeOperator/shape")
     res.extra.update(stats)
+    res.floor("index-axis agreement sites (loop variable over dims[k] used at position k)", _axis_agreement(idx, res), 4)
+
+
+def _axis_agreement(idx: Index, res: Result) -> int:
+    """AXIS: in the expansion loops of an arrayed equation a variable that ranges over ``range(D[k])`` addresses axis k: it stands at
+    position k of ``X[i][j]`` and of the index list ``[i, j]`` handed to clone_with_index.  A variable over the wrong axis leaves part
+    of a non-square result without equation (or addresses entries that do not exist)."""
+    n_inst = 0
+    for rel in (ELEMENT, OPS):
+        for fi in idx.module(rel).functions.values():
+            axis: Dict[str, Tuple[str, int, ast.AST]] = {}
+            for lp in [n for n in walk_no_nested(fi.node) if isinstance(n, ast.For)]:
+                it = lp.iter
+                if isinstance(lp.target, ast.Name) and isinstance(it, ast.Call) and call_name(it) == "range" and len(it.args) == 1 \
+                        and isinstance(it.args[0], ast.Subscript) and isinstance(it.args[0].slice, ast.Constant) and isinstance(it.args[0].slice.value, int):
+                    axis_here = (src(it.args[0].value), it.args[0].slice.value, lp)
+                    axis[(lp.target.id, id(lp))] = axis_here
+            if not axis:
+                continue
+            # evaluate each use under the loops enclosing it
+            def enclosing(node):
+                env = {}
+                for (v, _), (d, k, lp) in axis.items():
+                    if any(x is node for x in ast.walk(lp)):
+                        env[v] = (d, k, lp)
+                return env
+            for kind, node, elts in _index_uses(fi.node):
+                env = enclosing(node)
+                vs = [e.id if isinstance(e, ast.Name) else None for e in elts]
+                if len(vs) < 2 or not all(v in env for v in vs):
+                    continue
+                ds = {env[v][0] for v in vs}
+                if len(ds) != 1:
+                    continue
+                n_inst += 1
+                got = [env[v][1] for v in vs]
+                ok = got == list(range(len(vs)))
+                res.check("AXIS", "%s: %s addresses axes %s" % (fi.qual, src(node)[:40], got), ok, fi.loc(node), fi.qual, src(node)[:80],
+                          "%s is addressed with variables that range over axes %s of %s (expected %s): the loop over `%s` covers the wrong axis, so for "
+                          "a non-square result some entries get no equation and others do not exist"
+                          % (src(node)[:50], got, sorted(ds)[0], list(range(len(vs))), norm_stmt(env[vs[got.index(next(g for i, g in enumerate(got) if g != i))]][2])[:40] if not ok else ""),
+                          key="AXIS/%s/%s" % (fi.qual, kind))
+    return n_inst
+
+
+def _index_uses(root: ast.AST):
+    """('subscript', node, [i, j]) for X[i][j] chains and ('list', node, [i, j]) for index-list literals passed to a call."""
+    inner = set()
+    for n in ast.walk(root):
+        if isinstance(n, ast.Subscript) and isinstance(n.value, ast.Subscript):
+            inner.add(id(n.value))
+    for n in ast.walk(root):
+        if isinstance(n, ast.Subscript) and id(n) not in inner and isinstance(n.value, ast.Subscript):
+            chain = []
+            e = n
+            while isinstance(e, ast.Subscript):
+                chain.append(e.slice)
+                e = e.value
+            yield "subscript:%s" % src(e), n, list(reversed(chain))
+        if isinstance(n, ast.Call):
+            for a in n.args:
+                if isinstance(a, ast.List) and len(a.elts) >= 2 and all(isinstance(x, ast.Name) for x in a.elts):
+                    yield "list:%s" % (call_name(n) or ""), a, list(a.elts)
